@@ -278,6 +278,25 @@ func (d *detInfo) rangeOf(e *termEnv, v ssa.Value) interval {
 		}
 		return interval{lo: lo, hi: hi, ok: true}
 	}
+	if bo, ok := v.(*ssa.BinOp); ok {
+		if ranged := rangeIndexOf(bo); ranged != nil {
+			// the index of "for i := range s": [0, len(s)-1]; the length is known for a re-sliced s = t[lo:hi]
+			sl, isSl := ranged.(*ssa.Slice)
+			if !isSl || sl.High == nil || sl.Max != nil {
+				return interval{why: "range over a slice of unknown length: " + e.termOf(ranged).String()}
+			}
+			hi, okh := d.linOf(e.termOf(sl.High))
+			lo := lin{}
+			okl := true
+			if sl.Low != nil {
+				lo, okl = d.linOf(e.termOf(sl.Low))
+			}
+			if !okh || !okl {
+				return interval{why: "range over a slice whose bounds are not linear in start/rowStop/columnStop: " + e.termOf(ranged).String()}
+			}
+			return interval{lo: lin{}, hi: hi.add(lo.neg()).add(lin{k: -1}), ok: true}
+		}
+	}
 	if bo, ok := v.(*ssa.BinOp); ok && (bo.Op == token.ADD || bo.Op == token.SUB) {
 		x, y := d.rangeOf(e, bo.X), d.rangeOf(e, bo.Y)
 		if x.ok && y.ok {
@@ -295,6 +314,22 @@ func (d *detInfo) rangeOf(e *termEnv, v ssa.Value) interval {
 	return interval{why: "index not understood: " + t.String()}
 }
 
+// colRange is the interval of the effective column of a pixel access (re-sliced rows add their low bound).
+func (d *detInfo) colRange(e *termEnv, a pixAccess) interval {
+	c := d.rangeOf(e, a.Col)
+	if !a.Sliced || !c.ok {
+		return c
+	}
+	if a.ColLow == nil {
+		return c
+	}
+	lo, ok := d.linOf(e.termOf(a.ColLow))
+	if !ok {
+		return interval{why: "low bound of the re-sliced row is not linear: " + e.termOf(a.ColLow).String()}
+	}
+	return interval{lo: c.lo.add(lo), hi: c.hi.add(lo), ok: true}
+}
+
 func (iv interval) within(lo, hi lin) bool {
 	return iv.ok && iv.lo.add(lo.neg()).nonneg() && hi.add(iv.hi.neg()).nonneg()
 }
@@ -307,6 +342,8 @@ type pixAccess struct {
 	Frame   ssa.Value       // the *Frame value
 	Row     ssa.Value
 	Col     ssa.Value // nil for whole-row accesses
+	ColLow  ssa.Value // non-nil when the row was re-sliced (row[lo:hi])[Col]: the effective column is ColLow+Col
+	Sliced  bool      // the row was re-sliced (ColLow == nil means low bound 0)
 	IsStore bool
 	Val     ssa.Value // stored value
 	Addr    ssa.Value
@@ -314,20 +351,39 @@ type pixAccess struct {
 
 // pixAddr decomposes &X.Pix[i][j] (col != nil) or &X.Pix[i] (row slot).
 func pixAddr(v ssa.Value) (frame, row, col ssa.Value, ok bool) {
+	f, r, c, _, sliced, ok := pixAddrS(v)
+	if sliced {
+		return nil, nil, nil, false
+	}
+	return f, r, c, ok
+}
+
+// pixAddrS also sees through one re-slicing of the row: &(X.Pix[i][lo:hi])[j].
+func pixAddrS(v ssa.Value) (frame, row, col, low ssa.Value, sliced, ok bool) {
 	ia, isIA := v.(*ssa.IndexAddr)
 	if !isIA {
+		return
+	}
+	if sl, isSl := ia.X.(*ssa.Slice); isSl && sl.Max == nil {
+		if u, isLoad := sl.X.(*ssa.UnOp); isLoad && u.Op == token.MUL {
+			if ia2, ok2 := u.X.(*ssa.IndexAddr); ok2 {
+				if f, r, c, _, s2, ok3 := pixAddrS(ia2); ok3 && c == nil && !s2 {
+					return f, r, ia.Index, sl.Low, true, true
+				}
+			}
+		}
 		return
 	}
 	// inner: row slice value = *(&X.Pix[i])
 	if u, isLoad := ia.X.(*ssa.UnOp); isLoad && u.Op == token.MUL {
 		if ia2, ok2 := u.X.(*ssa.IndexAddr); ok2 {
-			if f, r, c, ok3 := pixAddr(ia2); ok3 && c == nil {
-				return f, r, ia.Index, true
+			if f, r, c, _, s2, ok3 := pixAddrS(ia2); ok3 && c == nil && !s2 {
+				return f, r, ia.Index, nil, false, true
 			}
 		}
 		// X.Pix loaded: this is &X.Pix[i]
 		if fa, ok2 := u.X.(*ssa.FieldAddr); ok2 && isPixField(fa) {
-			return fa.X, ia.Index, nil, true
+			return fa.X, ia.Index, nil, nil, false, true
 		}
 	}
 	return
@@ -347,12 +403,12 @@ func pixAccessesOf(fn *ssa.Function) []pixAccess {
 				if x.Op != token.MUL {
 					continue
 				}
-				if f, r, c, ok := pixAddr(x.X); ok {
-					out = append(out, pixAccess{Fn: fn, Instr: x, Frame: f, Row: r, Col: c, Addr: x.X})
+				if f, r, c, lo, sl, ok := pixAddrS(x.X); ok {
+					out = append(out, pixAccess{Fn: fn, Instr: x, Frame: f, Row: r, Col: c, ColLow: lo, Sliced: sl, Addr: x.X})
 				}
 			case *ssa.Store:
-				if f, r, c, ok := pixAddr(x.Addr); ok {
-					out = append(out, pixAccess{Fn: fn, Instr: x, Frame: f, Row: r, Col: c, IsStore: true, Val: x.Val, Addr: x.Addr})
+				if f, r, c, lo, sl, ok := pixAddrS(x.Addr); ok {
+					out = append(out, pixAccess{Fn: fn, Instr: x, Frame: f, Row: r, Col: c, ColLow: lo, Sliced: sl, IsStore: true, Val: x.Val, Addr: x.Addr})
 				}
 			}
 		}
